@@ -367,6 +367,33 @@ def run_fs(desc):
                     elif sa_ and i_ & 15:
                         out.nontrivial(('fs-reach', ti, t_, fl_))
 
+            # tilde expansion in inclusions and in inline exclusions (HOME is the tree): bytes as str
+            home0_ = os.environ.get('HOME')
+            os.environ['HOME'] = root
+            try:
+                for pl_ in (['~/*', '!~/a'], ['~/*', '!~/d'], ['~/*'], ['~'], ['~/*', '-~/a'], ['*', '!~'], ['~/d/*', '!~/d/a']):
+                    for fl_ in (G.GLOBTILDE | G.NEGATE, G.GLOBTILDE | G.NEGATE | G.MINUSNEGATE, G.GLOBTILDE, G.NEGATE, G.GLOBTILDE | G.NEGATE | G.MARK):
+                        try:
+                            ta_ = G.glob(pl_, flags=fl_, root_dir=root)
+                            tb_ = G.glob(enc(pl_), flags=fl_, root_dir=broot)
+                            names_ = [os.path.join(root, c_) for c_ in cands[:12]]
+                            fa_ = G.globfilter(names_, pl_, flags=fl_ | G.REALPATH)
+                            fb_ = G.globfilter([os.fsencode(n_) for n_ in names_], enc(pl_), flags=fl_ | G.REALPATH)
+                        except Exception as e:
+                            out.stats['exception_skipped:' + type(e).__name__] += 1
+                            continue
+                        out.evaluations += 2
+                        if [os.fsencode(x) for x in ta_] != tb_ or [os.fsencode(x) for x in fa_] != fb_:
+                            out.violation({'mode': 'fs', 'api': 'glob/globfilter with HOME', 'pattern': pl_, 'flags': fl_, 'tree': ti,
+                                           'str': [x.replace(root, '<root>') for x in ta_][:8], 'bytes': [os.fsdecode(x).replace(root, '<root>') for x in tb_][:8],
+                                           'problem': 'bytes result differs from str result: tilde patterns'}, bucket=('fs-tilde', str(pl_)))
+                        elif ta_:
+                            out.nontrivial(('fs-tilde', ti, str(pl_), fl_))
+            finally:
+                if home0_ is None:
+                    os.environ.pop('HOME', None)
+                else:
+                    os.environ['HOME'] = home0_
             # absolute names against absolute patterns whose globstar starts at the file system root (REALPATH: the part of the name a
             # globstar took is looked up for symlinks, from wherever that part starts)
             abs_names = [os.path.join(root, c_) for c_ in cands if not c_.endswith('/')]
@@ -509,7 +536,18 @@ def replay(case):
     if m == 'fs':
         with FC.built_tree(FS_TREES[case['tree']]) as (root, _removed):
             broot = os.fsencode(root)
-            if case['api'] == 'globfilter(REALPATH) absolute':
+            if case['api'] == 'glob/globfilter with HOME':
+                home0_ = os.environ.get('HOME')
+                os.environ['HOME'] = root
+                try:
+                    a = G.glob(case['pattern'], flags=case['flags'], root_dir=root)
+                    b = G.glob(enc(case['pattern']), flags=case['flags'], root_dir=broot)
+                finally:
+                    if home0_ is None:
+                        os.environ.pop('HOME', None)
+                    else:
+                        os.environ['HOME'] = home0_
+            elif case['api'] == 'globfilter(REALPATH) absolute':
                 abs_names = []
                 for b_, ds_, fs_ in os.walk(root, followlinks=True):
                     abs_names += [os.path.join(b_, n_) for n_ in ds_ + fs_]
